@@ -1174,6 +1174,12 @@ def split_qualified(callee: str):
             targs = tr[k + 1:match_close(tr, k)]
             tr = tr[:k]
         return ty, tr.split('::')[-1], targs, method
+    mi = re.match(r'^core::(?:num|str|slice|f64|char)::(?:[a-z_]+::)*<impl (.+)>::([A-Za-z_0-9]+)(::<.*>)?$', c)
+    if mi:
+        base = mi.group(1)
+        if base.startswith('['):
+            base = 'slice'
+        return strip_generics(base), None, None, mi.group(2)
     nog = strip_generics(c)
     segs = nog.split('::')
     if len(segs) == 1:
